@@ -82,6 +82,7 @@ func RunWorker(o WorkerOpts) int {
 	}
 	runtime.GOMAXPROCS(procs)
 	debug.SetGCPercent(400)
+	debug.SetMemoryLimit(1 << 30) // collect eagerly long before the address-space limit is near
 	if o.MemLimit > 0 {
 		lim := syscall.Rlimit{Cur: o.MemLimit, Max: o.MemLimit}
 		_ = syscall.Setrlimit(syscall.RLIMIT_AS, &lim)
